@@ -10,6 +10,8 @@ import (
 	"testing"
 
 	"github.com/consensys/gnark/frontend"
+
+	"github.com/consensys/gnark/verifharness/internal/vcore"
 )
 
 // TestC19Replay re-runs the honest part of one recorded case:
@@ -33,7 +35,13 @@ func TestC19Replay(t *testing.T) {
 			Curve   string   `json:"curve"`
 			Builder string   `json:"builder"`
 			Values  []string `json:"values"`
+			// large batches: the inputs are regenerated from (VERIF_SEED = recorded seed, label)
+			LargePattern string `json:"large_pattern"`
+			Instances    int    `json:"instances"`
+			ExportInputs bool   `json:"export_inputs"`
+			RngLabel     string `json:"values_rng_label"`
 		} `json:"case"`
+		Seed int64 `json:"seed"`
 	}
 	if err := json.Unmarshal(b, &rec); err != nil {
 		t.Fatal(err)
@@ -42,6 +50,9 @@ func TestC19Replay(t *testing.T) {
 		t.Fatal(err)
 	}
 	tp := rec.Case.Topo
+	if rec.Case.LargePattern != "" {
+		tp = largeTopo(rec.Case.LargePattern, rec.Case.Instances, rec.Case.ExportInputs)
+	}
 	if h := os.Getenv("C19_REPLAY_HASH"); h != "" {
 		tp.Hash = h
 	}
@@ -67,16 +78,17 @@ func TestC19Replay(t *testing.T) {
 			vals[i].SetString(rec.Case.Values[i], 10)
 		}
 	}
+	if rec.Case.RngLabel != "" {
+		r := vcore.Start(t, "C19")
+		if r.Seed != rec.Seed {
+			t.Fatalf("set VERIF_SEED=%d (the seed of the recorded run) to regenerate the inputs", rec.Seed)
+		}
+		vals = genValues(r.Rand(rec.Case.RngLabel), k.mod, len(c.Vals), "random")
+	}
 	ccs, err := compile(k, rec.Case.Builder, c)
 	if err != nil {
 		fmt.Println("compile:", short(err))
 		return
-	}
-	if info, ok := k.info(ccs); ok {
-		if hangs, detail := hangProbe(info); hangs {
-			fmt.Println("hang probe:", detail)
-			return
-		}
 	}
 	nonce := newNonce()
 	w, _ := frontend.NewWitness(c.assignment(nonce, vals), k.mod)
@@ -84,8 +96,17 @@ func TestC19Replay(t *testing.T) {
 	tap := takeTap(nonce)
 	want := tp.expectedTap(tp.refEval(k.mod, vals))
 	fmt.Println("solve (no assertion):", short(err))
-	fmt.Println("exported:", strs(tap))
-	fmt.Println("expected:", strs(want))
+	if len(want) <= 256 {
+		fmt.Println("exported:", strs(tap))
+		fmt.Println("expected:", strs(want))
+	} else {
+		for i := range want {
+			if tap != nil && i < len(tap) && tap[i].Cmp(want[i]) != 0 {
+				fmt.Printf("first difference at tap index %d (instance %d): exported %s expected %s\n", i, i%tp.N, tap[i], want[i])
+				break
+			}
+		}
+	}
 	fmt.Println("equal:", tap != nil && eqVec(tap, want))
 	cA := newTopoCircuit(tp, true)
 	if ccsA, err := compile(k, rec.Case.Builder, cA); err == nil {
